@@ -47,7 +47,7 @@ DisplayM(a, c) ==
 \* {:.N}: the value rounded to scale N by the library's rounding, written with exactly N fraction digits;
 \* integers whose padding exceeds the limit stay unpadded with their exponent
 DisplayPrecM(a, N, c) ==
-  IF a.sc <= 0 /\ a.d # <<>> /\ (-a.sc) + (IF N > 0 THEN N + 1 ELSE 0) > c.maxPad
+  IF a.sc <= 0 /\ (IF a.d = <<>> THEN 0 ELSE -a.sc) + (IF N > 0 THEN N + 1 ELSE 0) > c.maxPad
   THEN SignText(a) \o DigitsText(a.d) \o (IF a.sc = 0 THEN <<>> ELSE <<ce>> \o IntTextPlus(-a.sc))
   ELSE LET r == RoundToScale(a, N, c.mode)
            body == PlainBody(Mk(1, r.d, N))
